@@ -451,7 +451,7 @@ def _replay_rest(cx, rf):
     gr = cx.pg(rf)
     ej = {c.block for sp, c in cx.prog.calls_out[rf.key] if c.kind == "call" and sp.endswith("Changer::enter_joint")}
     cx.check(len(ej) == 1, "replay:enter_joint", "confchange::restore enters the joint configuration at one site")
-    cont = [l for n_ in range(len(gr.nodes)) for _, ls in gr.edges[n_] or [] for l in ls if l[0] == "in" and (l[2] == frozenset(["Continue"]) or l[2] == frozenset(["Ok"]) and l[1][0] == "call")]
+    cont = [l for n_ in range(len(gr.nodes)) for _, ls in gr.edges[n_] or [] for l in ls if l[0] == "in" and (l[2] == frozenset(["Continue"]) or l[2] == frozenset(["Ok"]) and l[3] == "core::result::Result")]
     def has_outgoing(l, want):
         return l[0] == "is" and l[2] is (not want) and l[1][0] == "call" and l[1][1].endswith("is_empty") and any(x[0] == "tfield" and x[2] == 0 for x in walk(l[1]))
     okj, nj = gr.after_edge_must_pass(lambda lits: any(has_outgoing(l, True) for l in lits), lambda b: b in ej, assume=cont)
